@@ -86,6 +86,7 @@ class Spec:
     name = ""
     tier = "quick"           # "thorough": only built in the thorough tier
     exclude = ()             # method names that are not queries for this class
+    exclude_c01 = ()         # queries that change primary state (C06 reports them), not used in C01
     extra_queries = ()       # additional (dotted) queries
     patterns = {}
 
@@ -524,6 +525,17 @@ class ClimateFamily(NetFamily):
 class ClimateSpec(ClimateFamily):
     name = "ClimateNetwork"
 
+    def setup_climate(self):
+        def q_del(run, k):
+            run.obj.correlation_distance_weighted_closeness()
+            run.obj.del_link_attribute("inv_correlation_distance")
+            return {"attribute_name": "inv_correlation_distance"}
+        self.quarantine = [Mut("del_link_attribute", q_del,
+                               check="ClimateNetwork.del_link_attribute/derived-attribute-recomputed",
+                               why="the cached inv_correlation_distance() installed the link attribute as a "
+                                   "side effect; after the attribute is deleted the cache hit does not "
+                                   "re-install it and the weighted measures raise")]
+
     def _sim(self):
         return np.array([[1.0, 0.1, 0.2, 0.6, 0.7, 0.55], [0.1, 1.0, 0.55, 0.9, 1.0, 0.3],
                          [0.2, 0.55, 1.0, 0.2, 0.8, 0.1], [0.6, 0.9, 0.1, 1.0, 0.1, 0.3],
@@ -612,7 +624,6 @@ class PartialSpec(TsonisSpec):
 class MutualInfoSpec(TsonisSpec):
     name = "MutualInfoClimateNetwork"
     clsname_ = "MutualInfoClimateNetwork"
-    ctor_takes_density = False
     #  dump=True (the default) pickles into a text-mode file in the cwd and raises TypeError
     patterns = {"dump": [False], "anomaly": [None]}
 
@@ -656,6 +667,31 @@ class HilbertSpec(DataClimateSpec):
     ctor_extra = {"directed": False}
 
 
+class HilbertDirectedSpec(HilbertSpec):
+    """directed Hilbert network: the constructor / set_directed mask the thresholded coherence
+    with the sign of the phase shift, the inherited regenerating setters do not"""
+    name = "HilbertClimateNetwork/directed"
+    ctor_extra = {"directed": True}
+    directed = True
+
+    def setup_climate(self):
+        why = ("set_threshold / set_link_density / set_non_local regenerate the network from the "
+               "coherence only; the phase-direction mask that the constructor and set_directed "
+               "apply is lost")
+        regen = {"set_threshold": self.m_thr, "set_link_density": self.m_dens, "set_non_local": self.m_nonlocal}
+        self.quarantine = [Mut(k, f, check=f"HilbertClimateNetwork.{k}/directed-fresh-twin", why=why)
+                           for k, f in regen.items()]
+        self.mutators = [m for m in self.mutators if m.name not in regen]
+        self.mutators.append(Mut("set_directed", self.m_directed))
+
+    def m_directed(self, run, k):
+        b = not run.model["extra"]["directed"]
+        run.obj.set_directed(b)
+        run.model["extra"] = {"directed": b}
+        self.regenerated(run)
+        return {"directed": b}
+
+
 class RainfallSpec(DataClimateSpec):
     name = "RainfallClimateNetwork"
     clsname_ = "RainfallClimateNetwork"
@@ -667,19 +703,6 @@ class CoupledTsonisSpec(DataClimateSpec):
     clsname_ = "CoupledTsonisClimateNetwork"
     N = 12
     data_factory = staticmethod(_long_data)
-
-    def setup_climate(self):
-        #  CoupledClimateNetwork.__init__ ends with InteractingNetworks.__init__(self, adjacency),
-        #  which resets the node weights to 1 (and `directed`, `silence_level` to their
-        #  defaults); every regenerating setter afterwards installs the weights of
-        #  node_weight_type.  A fresh object therefore never agrees with a regenerated one.
-        why = ("a freshly constructed CoupledClimateNetwork has unit node weights although "
-               "node_weight_type='surface'; after the setter the weights are cos(lat)")
-        regen = {"set_threshold": self.m_thr, "set_link_density": self.m_dens,
-                 "set_non_local": self.m_nonlocal, "set_nwt": self.m_set_nwt}
-        self.quarantine = [Mut(k, f, check=f"CoupledClimateNetwork.{k}/fresh-twin", why=why)
-                           for k, f in regen.items()]
-        self.mutators = [m for m in self.mutators if m.name not in regen]
 
     def start(self):
         data, data2 = _long_data(5), _long_data(6)
@@ -972,7 +995,6 @@ class RPEuclidSpec(RPSpec):
     name = "RecurrencePlot/euclidean-embedded"
     metric = "euclidean"
     extra_kw = {"dim": 2, "tau": 1}
-    tier = "thorough"
 
     def setup_more(self):
         n = self.n - 1
@@ -982,7 +1004,6 @@ class RPEuclidSpec(RPSpec):
 class RPMissingSpec(RPSpec):
     name = "RecurrencePlot/missing-values"
     extra_kw = {"missing_values": True}
-    tier = "thorough"
     kinds = ("thr", "rr", "lrr")
 
     def setup_more(self):
@@ -1002,6 +1023,31 @@ class RPMissingSpec(RPSpec):
         self.quarantine = [Mut("embedding", moved,
                                check="RecurrencePlot.embedding/missing-value-indices-follow",
                                why="embedding setter keeps the missing_value_indices of the old embedding")]
+
+
+class RPSparseSpec(RPSpec):
+    """sequential ("sparse") RQA: no recurrence matrix is kept, the line distributions are
+    computed from `threshold` directly (documented as experimental, fixed threshold and
+    supremum metric only)"""
+    name = "RecurrencePlot/sparse-rqa"
+    extra_kw = {"sparse_rqa": True}
+    kinds = ()
+
+    def setup_more(self):
+        def q_thr(run, k):
+            run.obj.set_fixed_threshold(1.6)
+            run.model.update(rspec=("thr", 1.6))
+            return {"threshold": 1.6}
+        self.quarantine = [Mut("set_fixed_threshold", q_thr,
+                               check="RecurrencePlot.set_fixed_threshold/sparse-rqa-fresh-twin",
+                               why="set_fixed_threshold does not update `threshold`, which the "
+                                   "sequential RQA kernels read")]
+
+    def m_emb(self, run, k):
+        E = self.E_pool[k % 4]
+        run.obj.embedding = E.copy()
+        run.model.update(E=E.copy())         # no stored R in this mode
+        return {"embedding": E}
 
 
 class RNSpec(RPSpec, NetFamily):
@@ -1187,7 +1233,6 @@ class JRPSpec(Spec):
 class JRPLagSpec(JRPSpec):
     name = "JointRecurrencePlot/lag"
     lag = 2
-    tier = "thorough"
 
 
 class JRNSpec(JRPSpec, NetFamily):
@@ -1274,6 +1319,7 @@ class ISRNSpec(NetFamily):
 
 class SurrogatesSpec(Spec):
     name = "Surrogates"
+    exclude_c01 = ("twin_surrogates",)        # assigns self.embedding
     exclude = ("embed_time_series_array", "recurrence_plot", "test_pearson_correlation",
                "test_mutual_information")
     patterns = {"dimension": [2], "threshold": [0.6], "min_dist": [2], "delay": [1], "n_iterations": [2]}
@@ -1301,8 +1347,10 @@ class SurrogatesSpec(Spec):
         from pyunicorn.timeseries import Surrogates
         d = self.data.copy()
         inputs = self.ready(original_data=d)
-        return Run(self, Surrogates(d, silence_level=SL), inputs,
-                   {"data": d.copy(), "E": None, "normalized": False})
+        obj = Surrogates(d, silence_level=SL)
+        #  twins() needs an embedding; give it one from the start
+        obj.embedding = self.E_pool[3].copy()
+        return Run(self, obj, inputs, {"data": d.copy(), "E": self.E_pool[3].copy(), "normalized": False})
 
     def twin(self, run):
         from pyunicorn.timeseries import Surrogates
@@ -1352,9 +1400,9 @@ ALL_SPECS = [
     InteractingDirectedSpec, SpatialSpec, GeoSpec,
     ResSpec, VisibilitySpec,
     ClimateSpec, TsonisSpec, SpearmanSpec, PartialSpec, MutualInfoSpec, HavlinSpec, HilbertSpec,
-    RainfallSpec, CoupledTsonisSpec, ESClimateSpec,
+    HilbertDirectedSpec, RainfallSpec, CoupledTsonisSpec, ESClimateSpec,
     ClimateDataSpec, DataSpec, GridSpec, GeoGridSpec,
-    RPSpec, RPEuclidSpec, RPMissingSpec, CRPSpec, JRPSpec, JRPLagSpec, RNSpec, JRNSpec, ISRNSpec,
+    RPSpec, RPEuclidSpec, RPMissingSpec, RPSparseSpec, CRPSpec, JRPSpec, JRPLagSpec, RNSpec, JRNSpec, ISRNSpec,
     SurrogatesSpec, EventSeriesSpec,
 ]
 
